@@ -140,11 +140,16 @@ def run(ctx) -> None:
     g = cfgs.get(pcf.fq)
     pc = PathCond(g, max_atoms=22)
     ex = pc.reach(g.exit)
-    ctx.require(all(a in pc.atoms for a in ("tag", "push", "commit")), f"_parse_config atoms changed: {pc.atoms}")
-    TAG, PUSH, COMMIT = BF.var("tag"), BF.var("push"), BF.var("commit")
-    exp = ex.project(["tag", "push", "commit"])
-    ctx.check("R4", exp.implies((~TAG | COMMIT) & (~PUSH | COMMIT)), "_parse_config returns only when tag => commit and push => commit", "config._parse_config: tag/push without commit is accepted",
-              f"returns when {exp.to_dnf()}", loc=pcf.loc(), witness=(exp & ~((~TAG | COMMIT) & (~PUSH | COMMIT))).models(1))
+    have = {a: (BF.var(a) if a in pc.atoms else None) for a in ("tag", "push", "commit")}
+    for opt in ("tag", "push"):
+        if have[opt] is None or have["commit"] is None:
+            ctx.bad("R4", f"config._parse_config: `{opt}` without commit is accepted", f"_parse_config no longer branches on `{opt}` / `commit`: the invariant {opt} => commit is not enforced",
+                    loc=pcf.loc(), what=f"_parse_config enforces {opt} => commit")
+            continue
+        exp = ex.project([opt, "commit"])
+        inv = ~have[opt] | have["commit"]
+        ctx.check("R4", exp.implies(inv), f"_parse_config returns only when {opt} => commit", f"config._parse_config: `{opt}` without commit is accepted",
+                  f"returns when {exp.to_dnf()}", loc=pcf.loc(), witness=(exp & ~inv).models(1))
     for opt in ("tag", "push"):
         sets = [n for n in g.nodes if n.kind == "stmt" and isinstance(n.ast, ast.Assign) and any(unparse(t) == opt for t in n.ast.targets)
                 and isinstance(n.ast.value, ast.Constant) and n.ast.value.value is False]
